@@ -497,3 +497,70 @@ pub fn expected_total_borrowing<'a>(
 pub fn s_to_big(x: super::S) -> BigInt {
     bs(x)
 }
+
+/// Kink-model borrowing factor per second, recomputed exactly.
+///
+/// Inputs taken from the real market (not under test here: C06 cross-checks the pool valuation, C07
+/// the open-interest pools): reserved value, pool value without pnl, reserve factor, max open
+/// interest, the configured kink parameters. Returns `None` when the kink model does not apply
+/// (optimal usage factor 0, nothing reserved, side skipped as the smaller one, empty pool) or an input
+/// is unavailable; `Some((rate, representable))` otherwise, where `representable` says that every
+/// intermediate *result* of the documented formula fits the number type (a failure of the real code
+/// is then a failure to compute, not an overflow).
+pub fn kink_borrowing_rate(m: &Mkt, is_long: bool, prices: &Prices<T>) -> Option<(BigInt, bool)> {
+    use gmsol_model::{BaseMarket, BaseMarketExt, BorrowingFeeMarket};
+    let kink = m.borrowing_fee_kink_model_params().ok()?;
+    let optimal = bi(*kink.optimal_usage_factor(is_long));
+    if optimal.is_zero() {
+        return None;
+    }
+    let reserved = bi(m.reserved_value(&prices.index_token_price, is_long).ok()?);
+    if reserved.is_zero() {
+        return None;
+    }
+    let params = m.borrowing_fee_params().ok()?;
+    let oi_long = oi_usd(m, true);
+    let oi_short = oi_usd(m, false);
+    if params.skip_borrowing_fee_for_smaller_side()
+        && ((is_long && oi_long < oi_short) || (!is_long && oi_short < oi_long))
+    {
+        return None;
+    }
+    let pool_value = bi(m.pool_value_without_pnl_for_one_side(prices, is_long, false).ok()?);
+    if pool_value.is_zero() {
+        return None;
+    }
+    let max_t = bi(T::MAX);
+    let mut fits = true;
+    let mut chk = |v: &BigInt| {
+        if *v > max_t {
+            fits = false;
+        }
+    };
+    let reserve_factor = bi(m.open_interest_reserve_factor().ok()?);
+    let max_reserved = apply_factor(&pool_value, &reserve_factor);
+    chk(&max_reserved);
+    let reserve_usage = if max_reserved.is_zero() { BigInt::zero() } else { div_floor(&(&reserved * unit()), &max_reserved) };
+    chk(&reserve_usage);
+    let usage = if m.ignore_open_interest_for_usage_factor().ok()? {
+        reserve_usage
+    } else {
+        let max_oi = bi(m.max_open_interest(is_long).ok()?);
+        let oi = if is_long { oi_long } else { oi_short };
+        let oi_usage = if max_oi.is_zero() { BigInt::zero() } else { div_floor(&(&oi * unit()), &max_oi) };
+        chk(&oi_usage);
+        if reserve_usage > oi_usage { reserve_usage } else { oi_usage }
+    };
+    let base = bi(*kink.base_borrowing_factor(is_long));
+    let above = bi(*kink.above_optimal_usage_borrowing_factor(is_long));
+    let mut rate = apply_factor(&usage, &base);
+    chk(&rate);
+    if usage > optimal && unit() > optimal {
+        let additional = if above > base { &above - &base } else { BigInt::zero() };
+        let extra = div_floor(&(&additional * (&usage - &optimal)), &(unit() - &optimal));
+        chk(&extra);
+        rate += extra;
+        chk(&rate);
+    }
+    Some((rate, fits))
+}
